@@ -305,7 +305,7 @@ let f _id vs =
     | [I "3"; n; np; std; acts; tlog; fin; total] ->
       kind3 (as_int n) (as_int np) (as_list std) (as_list acts) (as_list tlog) (as_int fin) (as_int total)
     | [I "4"; _pipeline; expected; runs] -> kind4 (as_list expected) (as_list runs)
-    | I "5" :: sub :: fired :: hang :: cls :: _ ->
+    | I "5" :: sub :: fired :: hang :: cls :: stalled :: _variant :: _k :: _chunk :: _buf :: procs :: [] ->
       (* the real pipeline on a synthetic store: a storage panic (sub 1) or a cancellation (sub 2)
          in the middle of a cyclical message *)
       let sub = as_int sub and fired = as_bool fired and hang = as_int hang and cls = as_int cls in
@@ -313,6 +313,14 @@ let f _id vs =
         (if sub = 1 then "PROP teardown did not complete after a storage fault on a cyclical message (Close hangs)"
          else "PROP teardown did not complete after cancellation in the middle of a cyclical message (Close hangs)")
       else if sub = 1 && fired && (cls = 0 || cls = 1) then "PROP the storage fault on a cyclical message was not reported by Err()"
+      else if sub = 1 && as_int stalled = 1 && fired && as_int procs = 1 then
+        (* listed finding: the panic ended the only processing goroutine of that sender; the
+           dispatcher of ProcessSender then blocks handing the next message over, the group cannot
+           quiesce, and a consumer parked in Recv is never woken: the pipeline closes only when the
+           request context is cancelled *)
+        "KNOWN fault_wedges_until_cancel the pipeline did not close itself after the fault; it completed after the request context was cancelled"
+      else if sub = 1 && as_int stalled = 1 then
+        "PROP the pipeline did not close itself after a storage fault although processing goroutines were left"
       else if sub = 1 && (not fired) && cls <> 0 then "PROP error without a fault"
       else if sub = 2 && cls >= 2 then
         "PROP Err() is not a context error after cancellation: a member tore down while a cyclical message was in flight"
